@@ -104,8 +104,27 @@ def image_dict(sym, tag, arch):
     }
 
 
-def images_old_src(sym, layout, with_subvariant):
+def concrete_image(tag, arch):
+    return {"path": "p/%s" % tag, "mtime": 1, "size": 2, "volume_id": None, "type": "dvd", "format": "iso", "arch": arch, "disc_number": 1, "disc_count": 1,
+            "checksums": {"sha256": tag}, "implant_md5": None, "bootable": False, "subvariant": "sv-" + tag}
+
+
+def warm_images_load(layout):
+    """what the process did before: another 1.0 images document, with the given variants and arches, was loaded into another object"""
+    images = {}
+    for variant, arches, has_src in layout:
+        images[variant] = dict((a, [concrete_image("%s-%s" % (variant, a), a)]) for a in arches)
+        if has_src:
+            images[variant]["src"] = [concrete_image("%s-src" % variant, "src")]
+    doc = {"header": {"version": "1.0", "type": "productmd.images"},
+           "payload": {"compose": {"id": "Fedora-19-20130101.0", "type": "production", "date": "20130101", "respin": 0}, "images": images}}
+    Images().loads(json.dumps(doc))
+
+
+def images_old_src(sym, layout, with_subvariant, warm=None):
     """images 1.0 / 1.1 documents: every source image is re-filed under each binary arch of its variant"""
+    if warm is not None:
+        warm_images_load(warm)
     major = 1
     minor = sym.int("minor", 0, 1)
     images = {}
@@ -238,6 +257,10 @@ def jobs(tier, seed):
     for kind in ("rpms", "images"):
         for same in (True, False):
             out.append({"harness": "add_arch_history", "params": {"kind": kind, "n": 12 if big else 8, "same": same}})
+    # the same variant names with other arch sets were loaded before, in the same process
+    out.append({"harness": "images_old_src", "params": {"layout": LAYOUTS[1], "with_subvariant": True,
+                                                       "warm": [("Server", ["x86_64", "ppc64le", "aarch64"], True), ("Client", ["i386"], True)]}})
+    out.append({"harness": "images_old_src", "params": {"layout": LAYOUTS[4], "with_subvariant": False, "warm": LAYOUTS[2]}})
     for lay in LAYOUTS:
         for ws in (True, False):
             out.append({"harness": "images_old_src", "params": {"layout": lay, "with_subvariant": ws}})
@@ -255,5 +278,6 @@ META = {
         "old documents: layouts from a catalogue (1-2 variants, 1-3 binary arches, src entry present/absent), every leaf symbolic; "
         "images header version 1.0/1.1 and rpms header version 0.0-0.3 as a symbolic integer; a variant with only a src entry is outside the claim",
         "JSON text layer replaced by the DocText stub",
+        "histories across objects: before an old images document is converted, another one with the same variant names and other arch sets was loaded into another object",
     ],
 }
